@@ -184,11 +184,12 @@ func workerMain(args []string) {
 		wo.Stops[stopNames[rr.Stop]]++
 		wo.Exhaustive += rr.Probes["exhaustive_case"]
 		ih[rr.IHash] = true
-		if rr.Probes["nontrivial"] > 0 {
+		if len(rr.NTHashes) > 0 {
+			for _, h := range rr.NTHashes {
+				nt[h] = true
+			}
+		} else if rr.Probes["nontrivial"] > 0 {
 			nt[rr.IHash^mix64(rr.Hash, 7)] = true
-		}
-		for _, h := range rr.NTHashes {
-			nt[h] = true
 		}
 		for _, pr := range rr.Pairs {
 			pairs[pr] = true
